@@ -13,6 +13,12 @@ FnCnaryMood      compare_to_auto (nested in compare_sex_chromosomes), the WHOLE 
                                                                               (C15_source_mood_stat, C15_source_med_diff)
 FnCnaryChrom     compare_chrom (nested), the WHOLE function: which shift goes to which call of compare_to_auto, the unpacking,
                  the ratio with the 0.01 floor and its fallback               (C15_source_male_lr)
+FnCnaryCenter    center_all after the selection: `if cnarr:` / the by_chrom dispatch / `shift = -estimator(values)` / the log line /
+                 `self.data["log2"] += shift`, per row; the estimator is a function-typed input, the two candidate inputs of
+                 the estimator are 1-d arrays (LQ)                            (C15_source_center_all)
+FnCnaryEstimator center_all's estimator dispatch: the dict display `est_funcs`, `isinstance(estimator, str)` on a str-or-callable
+                 parameter, the lookup, and the test that decides between lookup and ValueError (located with `ast`)
+                                                    (C15_source_estimator_name / _callable / _known)
 
 Mutations tried on a scratch copy (tools/mut_fn.sh; KILLED = the named Proofs file no longer compiles, REFUSED = the
 translator refuses the module, which the check reports as a broken tie):
@@ -27,6 +33,11 @@ translator refuses the module, which the check reports as a broken tie):
   FnCnaryChrom    male call given `vals + female_shift` REFUSED (the keyed input is gone) ; `female_stat / max(male_stat, 0.01)`
                   -> `male_stat / max(female_stat, 0.01)` KILLED ; `is not None and` -> `or` REFUSED (argument of type OQ
                   where Q is expected)
+  FnCnaryCenter   `shift = -estimator(values)` -> `estimator(values)` KILLED ; `if by_chrom:` -> `if not by_chrom:` KILLED ;
+                  `self.data["log2"] += shift` -> `-=` KILLED ; `values = cnarr["log2"]` -> `self["log2"]` REFUSED
+  FnCnaryEstimator  "mode" mapped to biweight_location KILLED ; key "biweight" renamed "tukey" KILLED ; `if estimator in
+                  est_funcs` -> `not in` KILLED (through fn_estimator_known; the lookup alone survives it, an error path being
+                  outside a translated body) ; `est_funcs[estimator]` -> `est_funcs["median"]` KILLED
 """
 
 _ROW = [('self.chromosome', 'S', 'chromosome'), ('self.start', 'Z', 'start'), ('self.end', 'Z', 'end_')]
@@ -52,6 +63,46 @@ def _chr_filter(name, coq, label, par_call):
 
 _MT = "median_test(auto_l, vals, ties='ignore', lambda_='log-likelihood')"
 _CSC = 'CopyNumArray.compare_sex_chromosomes.'
+import ast, os, sys
+
+
+def _repo():
+    for name in ('py2v_fn', '__main__'):
+        m = sys.modules.get(name)
+        if m is not None and hasattr(m, 'REPO') and hasattr(m, 'FnTranslator'):
+            return m.REPO
+    return os.environ.get('CNVKIT_REPO', '/repo')
+
+
+def _method(name, rel='cnvlib/cnary.py'):
+    src = open(os.path.join(_repo(), rel)).read()
+    for n in ast.walk(ast.parse(src)):
+        if isinstance(n, ast.FunctionDef) and n.name == name:
+            return n
+    raise ValueError('no function %s' % name)
+
+
+def _known_test():
+    """the test that decides between the table lookup and the ValueError in center_all:
+    if isinstance(estimator, str): if <TEST>: estimator = est_funcs[estimator] else: raise ...   ->  source of TEST
+    (an error path is outside a translated body, so the test is handed over as a result of its own; fail-closed)"""
+    try:
+        outer = [s for s in _method('center_all').body
+                 if isinstance(s, ast.If) and ast.unparse(s.test) == 'isinstance(estimator, str)']
+        if len(outer) != 1 or outer[0].orelse or len(outer[0].body) != 1:
+            raise ValueError('no single `if isinstance(estimator, str):` with one statement')
+        inner = outer[0].body[0]
+        if not (isinstance(inner, ast.If) and len(inner.orelse) == 1 and isinstance(inner.orelse[0], ast.Raise)
+                and len(inner.body) == 1 and ast.unparse(inner.body[0]) == 'estimator = est_funcs[estimator]'):
+            raise ValueError('not `if T: estimator = est_funcs[estimator] else: raise`')
+        return ast.unparse(inner.test), 'est_funcs = {'
+    except Exception as exc:   # noqa -- fail closed
+        return 'estimator in est_funcs', '<cnvlib/cnary.py no longer has the expected shape: %s>' % exc
+
+
+_EST = [('pd.Series.mean', 'F:LQ>Q', 'series_mean'), ('pd.Series.median', 'F:LQ>Q', 'series_median'),
+        ('descriptives.modal_location', 'F:LQ>Q', 'modal_location'),
+        ('descriptives.biweight_location', 'F:LQ>Q', 'biweight_location')]
 
 MODULES = {
     'FnCnaryXFilter': ('cnvlib/cnary.py', [
@@ -89,5 +140,35 @@ MODULES = {
                      ('compare_to_auto(vals + male_shift, weights)[1]', 'Q', 'm_med_diff'),
                      ('male_stat is not None', 'B', 'm_some')],
              ret='Q'),
+    ]),
+    # center_all, the statement `if cnarr: ...` (everything after the selection): the by_chrom dispatch of the values the
+    # estimator sees, `shift = -estimator(values)`, the log line, `self.data["log2"] += shift` read per row.  `estimator` is a
+    # function-typed input (a pure callable on a 1-d array), the per-chromosome estimates `pd.Series([estimator(subarr["log2"])
+    # for ...])` and the selection's log2 column are opaque 1-d arrays (LQ), `cnarr` is read by its truth value (a table is
+    # true when it has rows).
+    'FnCnaryCenter': ('cnvlib/cnary.py', [
+        dict(name='CopyNumArray.center_all', coq='fn_center_row',
+             py_params=['self', 'estimator', 'by_chrom', 'skip_low', 'verbose', 'diploid_parx_genome'],
+             fragment=dict(first='if cnarr', last='if cnarr'),
+             params=[('cnarr', 'B', 'selection_nonempty'), ('by_chrom', 'B'), ('verbose', 'B'), ('estimator', 'F:LQ>Q'),
+                     ("pd.Series([estimator(subarr['log2']) for _c, subarr in cnarr.by_chromosome() if len(subarr)])", 'LQ',
+                      'chrom_estimates'),
+                     ("cnarr['log2']", 'LQ', 'selection_log2'), ("self.data['log2']", 'Q', 'log2_')],
+             returns=["self.data['log2']"], ret='Q'),
+    ]),
+    # center_all, the estimator dispatch: the table `est_funcs = {"mean": ..., "median": ..., "mode": ..., "biweight": ...}`
+    # (a dict display local, read only by `in` and `[key]`), `if isinstance(estimator, str):` on a parameter that is a str
+    # OR a callable (union type), `if estimator in est_funcs: estimator = est_funcs[estimator] else: raise ValueError`.
+    # The four library functions are function-typed inputs.  fn_estimator_known is the test `estimator in est_funcs`
+    # that decides between the lookup and the ValueError.
+    'FnCnaryEstimator': ('cnvlib/cnary.py', [
+        dict(name='CopyNumArray.center_all', coq='fn_center_estimator',
+             py_params=['self', 'estimator', 'by_chrom', 'skip_low', 'verbose', 'diploid_parx_genome'],
+             fragment=dict(first='est_funcs = {', last='if isinstance(estimator, str)'),
+             params=[('estimator', 'S|F:LQ>Q')] + _EST, returns=['estimator'], ret='F:LQ>Q'),
+        dict(name='CopyNumArray.center_all', coq='fn_estimator_known',
+             py_params=['self', 'estimator', 'by_chrom', 'skip_low', 'verbose', 'diploid_parx_genome'],
+             fragment=dict(first=_known_test()[1], last=_known_test()[1]),
+             params=[('estimator', 'S')] + _EST, returns=[_known_test()[0]], ret='B'),
     ]),
 }
